@@ -14,8 +14,8 @@ def layers(toks, spc=0, tier='quick', failk=None):
               bounds='Content-Encoding "%s" (SP-after-comma mask %d), layer limit 0..3, lzma limit 0..2, decompression enabled/disabled, stale decompressor present/absent (all symbolic)' % (', '.join(toks), spc))
 UG = ['htp_decompressors.c']
 def glue(scen, len1, len2=0, tier='quick', timeout=600, mem_gb=10, kfs=(), plan=('E',) * 6, fmt='gzip', cberr=None, n1=None):
-    maxstep = len(plan); RC = {'O': 'Z_OK', 'S': 'Z_STREAM_END', 'E': 'Z_DATA_ERROR', 'B': 'Z_BUF_ERROR'}
-    return Ob('glue.s%d.L%d_%d.%s%s' % (scen, len1, len2, ''.join(plan), ('' if fmt == 'gzip' else '.deflate') + ('' if cberr is None else '.cberr%d' % cberr) + ('' if n1 is None else '.n%d' % n1)), 'decomp/glue.c', units=UG, models=['@libc_model.c'], remove=[], defines=dict({'SCEN': scen, 'LEN1': len1, 'LEN2': len2, 'RCPLAN': '{' + ','.join(RC[c] for c in plan) + '}'}, **dict({} if fmt == 'gzip' else {'FMT_DEFLATE': 1}, **dict({} if cberr is None else {'CBERR': cberr}, **({} if n1 is None else {'N1': n1, 'STEP_SPLIT': 1})))), unwind=max(len1, len2) + 3, unwindset=['htp_gzip_decompressor_decompress:1'],
+    maxstep = len(plan); RC = {'O': 'Z_OK', 'S': 'Z_STREAM_END', 'E': 'Z_DATA_ERROR', 'B': 'Z_BUF_ERROR', 'M': 'VERIF_RC_MEM'}
+    return Ob('glue.s%d.L%d_%d.%s%s' % (scen, len1, len2, ''.join(plan), ('' if fmt == 'gzip' else '.deflate') + ('' if cberr is None else '.cberr%d' % cberr) + ('' if n1 is None else '.n%d' % n1)), 'decomp/glue.c', units=UG, models=['@libc_model.c'], remove=[], defines=dict({'SCEN': scen, 'LEN1': len1, 'LEN2': len2, 'RCPLAN': '{' + ','.join(RC[c] for c in plan) + '}'}, **dict({} if fmt == 'gzip' else {'FMT_DEFLATE': 1}, **dict({} if cberr is None else {'CBERR': cberr}, **({} if n1 is None else {'N1': n1, 'STEP_SPLIT': 1})))), unwind=max(len1, len2) + 3, unwindset=['htp_gzip_decompressor_decompress:1', 'memcmp.0:2000'],
               unwind_by=[(r'^harness', 16), (r'^LzmaDec_Allocate', 7), (r'^memcpy', 16), (r'^htp_gzip_decompressor_decompress\.0', 6), (r'^htp_gzip_decompressor_decompress\.1', maxstep + 4), (r'^htp_gzip_decompressor_probe', max(max(len1, len2) - 8, 2))],
               restrict_by=[(r'callback', 'cb')], fp_strict=True, tier=tier, timeout=timeout, mem_gb=mem_gb, kfs=list(kfs), flags=['--unwindset', 'htp_gzip_decompressor_decompress:1'] if False else [],
               statement={1: 'undecodable chunk: after the restarts the whole chunk reaches the callback unchanged (pointer, length)', 2: '.lzma header split over two calls: LzmaDec_Allocate sees the first 5 stream bytes, the decoder is offered the stream from offset 13, nothing skipped or twice', 3: 'flow: produced == delivered after the final call, every delivery <= one buffer, offered input contiguous', 4: 'after the callback refused a block no further byte reaches it', 5: 'a decompressor that gave up passes every later chunk and the final call through'}[scen], bounds='%s, chunks of %d and %d symbolic bytes, decoder plan %s%s%s' % (fmt if scen != 2 else 'lzma', len1, len2, ''.join(plan), '' if cberr is None else ', delivery %d refused' % cberr, '' if n1 is None else ', %d decoder call(s) in the first data call' % n1))
@@ -28,7 +28,7 @@ def obligations(tier):
     obs += [layers(c, spc) for c in combos for spc in (0, 6)]
     # the glue function itself, from a freshly created decompressor, against contract stubs of zlib / LzmaDec with constant return-code plans
     obs += [glue(1, 4), glue(1, 12, kfs=['F12-restart-loses-chunk']), glue(1, 12, fmt='deflate', kfs=['F12-restart-loses-chunk']), glue(5, 3), glue(5, 2, fmt='deflate')]                      # pass-through
-    obs += [glue(2, a, 15 - a, plan='OOS') for a in (1, 5, 12)] + [glue(2, 13, 2, plan='OOS', n1=1), glue(2, 14, 1, plan='OOS', n1=1)] + [glue(2, 5, 10, plan='OOO'), glue(2, 7, 8, plan='S')]          # .lzma header split
+    obs += [glue(2, a, 15 - a, plan='OOS') for a in (1, 5, 12)] + [glue(2, 13, 2, plan='OOS', n1=1), glue(2, 14, 1, plan='OOS', n1=1)] + [glue(2, 5, 10, plan='OOO'), glue(2, 7, 8, plan='S'), glue(2, 5, 10, plan='OMEEEE'), glue(2, 5, 10, plan='MEEEEE')]          # .lzma header split
     obs += [glue(3, 3, plan='S'), glue(3, 3, plan='OS'), glue(3, 3, plan='OOS'), glue(3, 3, plan='OOO'), glue(3, 3, 2, plan='OOS', n1=1), glue(3, 3, 2, plan='OOO', n1=1),
             glue(3, 3, plan='OOS', fmt='deflate')]                                                                                  # flow
     obs += [glue(4, 3, 0, plan='OOO', cberr=0), glue(4, 3, 0, plan='OOS', cberr=1), glue(4, 3, 2, plan='OOO', cberr=0, n1=2), glue(4, 3, 2, plan='OOO', cberr=1, n1=1),
